@@ -202,7 +202,10 @@ Definition eval_gen (ps : list ty) (nres : nat) (cls : string) : verdict :=
        v_model_ok := (if real_ok then gen_wellformed ps nres
                       else if real_illformed then old_bad else crash);
        v_spec_ok := (real_ok || crash)%bool;
-       v_guard := true;
+       (* the class of the known finding (pinned generator ill-formed, and the real one is) lies
+          outside the guard: it is reported through its tag, as a known finding when listed as
+          open, as a violation otherwise *)
+       v_guard := negb (old_bad && real_illformed);
        v_model := Sym (if gen_wellformed ps nres then "ok" else "not-wellformed");
        v_tag := (if old_bad then "known:mem-noresult-noncomparable-illformed/" else "gen/") ++ tagb
                 ++ (if crash then "/generator-crash-see-C09" else "") |}
